@@ -313,8 +313,9 @@ Section CrashHist.
       exists m2, os2, w2. split; [exact Eo|now right].
   Qed.
 
-  (* C03.  From an empty directory (first open with pre_create_cas_dirs = false, as everywhere
-     in this development), for every extended history whose operations are API calls fitting
+  (* C03.  From an empty directory (either choice of pre_create_cas_dirs: the empty directory
+     is a state of the first-time clause RestF of the invariant, and CrashOpen.a_open covers
+     the first open for both), for every extended history whose operations are API calls fitting
      the formats (ext_fits: as hist_fits, along every branch), without hash collisions among the
      written contents, of fewer than 2^32-1 events: every open of the history -- after a
      restart, after a crash during an operation at ANY call boundary, after crashes during the
@@ -323,21 +324,24 @@ Section CrashHist.
      applied entirely or not at all.  (Inv' is the invariant every further operation needs;
      it gives Live0, hence exact reads, counts and statistics for that map.) *)
   Theorem C03_crash_atomic : forall h,
-    c_pre cfg = false -> c_n cfg < 2 ^ 64 ->
+    c_n cfg < 2 ^ 64 ->
     NoCollide (flat_map ev_contents h) -> ext_fits [] h -> N.of_nat (length h) < 2 ^ 32 - 1 ->
     exists hd0 w0, reopen empty_fs = Some (hd0, w0) /\
     exists hd w', run_ext (hd0, w0) h = Some (hd, w') /\ h_cfg hd = cfg /\ wfault w' = None /\
       exists sg, allowed [] h sg /\ Inv' (h_mem hd) (wfs w') sg.
   Proof.
-    intros h Pre Nfit NC Fit Ln.
-    destruct (open_fresh_disk H H_len H_byte cfg n_pos Pre Nfit)
-      as (m & os & w1 & E1 & F1 & IV1 & _ & _ & Nv1).
+    intros h Nfit NC Fit Ln.
+    assert (R0 : RestB 1 empty_fs []).
+    { split; [constructor|]. split; [intros a b []|]. right.
+      split; [reflexivity|]. split; [exact Nfit|]. split; [exact empty_fs_wf|].
+      repeat split; intros; reflexivity. }
+    destruct (DX rest_open_b 1 empty_fs [] (init_world empty_fs None) R0 (N.le_refl _) eq_refl eq_refl)
+      as (m & os & w1 & E1 & F1 & IV1 & _ & Nv1 & _).
     exists (mkHandle cfg m os), w1. split; [unfold reopen; rewrite E1; reflexivity|].
     apply run_ext_ok; try assumption.
-    - now apply (inv_inv' H H_len H_byte cfg n_pos).
     - now rewrite app_nil_r.
     - cbn [length]. pow_consts. lia.
-    - rewrite Nv1. pow_consts. lia.
+    - pow_consts. lia.
   Qed.
 
   (* what Inv' gives the user of the final handle: reads answer as the ordered map sgf *)
@@ -397,7 +401,7 @@ Example toy_crash_theorem_instance : forall n,
     allowed toy_cfg [] (toy_h n) sg /\ km (idx (h_mem hd)) = km_of toyH sg.
 Proof.
   intros n.
-  destruct (C03_crash_atomic toyH toyH_len toyH_byte toy_cfg eq_refl (toy_h n) eq_refl)
+  destruct (C03_crash_atomic toyH toyH_len toyH_byte toy_cfg eq_refl (toy_h n))
     as (hd0 & w0 & E0 & hd & w' & E & _ & _ & sg & Al & (L & _)).
   - reflexivity.
   - apply toy_nocollide_h.
